@@ -369,3 +369,110 @@ def stage_small_model(pid, tier, seed, d, binp, st, ctx):
     ctx["log"]("%s: %d states, all invariants / temporal properties hold" % (mod, ds))
     return dict(coverage={"module": mod, "states": ds, "transitions": g}, violations=[], traces=0, states=ds, transitions=g,
                 samples=[], nontrivial_keys=[])
+
+
+def stage_blocking_cases(pid, tier, seed, d, binp, st, ctx):
+    """Blocking.tla: (1) TLC checks ByDeadline / Returns / NoPanic / Delivery for every caller context and prints one CASE line
+    per terminal state; (2) the two deviations must be refuted by TLC; (3) every case the code can run is executed on real
+    threads (vh blockcases) and compared with the model's outcome.  pid C17 judges the calls on the ActorRef, pid C16 compares
+    each call through a wrapper with the same call on the ActorRef."""
+    T_MS, SLACK = 300, 1000
+    base = ("SPECIFICATION Spec\nCONSTANTS\n  HelperRt = \"%s\"\n  KeepsTimeout = %s\n  T = 2\n  MaxNow = 4\n  Emit = %s\n"
+            "INVARIANTS ByDeadline ReturnsInv NoPanic Delivery EmitCases\nPROPERTIES Returns\nCHECK_DEADLOCK FALSE\n")
+    def tlc(name, helper, keeps, emit):
+        open(os.path.join(d, "Blocking_%s.cfg" % name), "w").write(base % (helper, keeps, emit))
+        p = subprocess.run(JAVA[:2] + ["-Xmx2g"] + JAVA[4:] + ["-workers", "1", "-metadir", os.path.join(d, "meta_blk_" + name),
+                            "-noGenerateSpecTE", "-config", "Blocking_%s.cfg" % name, "Blocking.tla"],
+                           cwd=d, text=True, stdout=subprocess.PIPE, stderr=subprocess.STDOUT, timeout=600)
+        return p.stdout or ""
+    out = tlc("asis", "private", "TRUE", "TRUE")
+    if "Model checking completed. No error has been found." not in out:
+        open(os.path.join(d, "Blocking_asis.out"), "w").write(out)
+        raise ctx["ToolError"]("MODEL FAILURE: Blocking.tla does not satisfy its properties (see Blocking_asis.out)")
+    m = re.findall(r"(\d[\d,]*) states generated, (\d[\d,]*) distinct states found", out)
+    g, ds = (int(m[-1][0].replace(",", "")), int(m[-1][1].replace(",", ""))) if m else (0, 0)
+    cases = []
+    pre = '<<"CASE", "'
+    for line in out.splitlines():
+        if line.startswith(pre) and line.endswith('">>'):
+            cases.append(json.loads(_unescape(line[len(pre):-3])))
+    key = lambda c: tuple(c["cfg"][k] for k in ("ctx", "home", "mode", "api", "form", "via"))
+    model = {}
+    for c in cases:
+        model.setdefault(key(c), set()).add((c["res"], c["queued"]))
+    if not model or any(len(v) != 1 for v in model.values()):
+        raise ctx["ToolError"]("Blocking.tla: no cases, or a configuration with more than one outcome")
+    for name, helper, keeps, inv in (("ambient", "ambient", "TRUE", "ReturnsInv"), ("dropsT", "private", "FALSE", "")):
+        o = tlc(name, helper, keeps, "FALSE")
+        if "is violated" not in o:
+            raise ctx["ToolError"]("Blocking.tla deviation %s was expected to be refuted by TLC but was not" % name)
+    # the model itself must be transparent: a wrapper case and its direct twin have the same outcome
+    for k, v in model.items():
+        if k[5] == "erased" and model.get(k[:5] + ("direct",)) != v:
+            raise ctx["ToolError"]("MODEL FAILURE: Blocking.tla gives the wrapper a different outcome: %s" % (k,))
+    runnable = [c for c in cases if c["res"] != "panic"]     # untimed calls on a runtime's own thread: tokio panics, nothing is promised
+    runnable.sort(key=key)
+    cp = os.path.join(d, "block_cases.json"); json.dump(runnable, open(cp, "w"))
+    rp_ = os.path.join(d, "block_results.json")
+    ctx["run"]([binp, "blockcases", "--in", cp, "--out", rp_, "--t", str(T_MS), "--par", "12"], cwd=d, timeout=900)
+    obs = {key(o): o for o in json.load(open(rp_))}
+    def judge(k):
+        """list of complaints about the observed outcome of case k against the model"""
+        o = obs.get(k)
+        (mres, mq), = model[k]
+        if o is None:
+            return ["case was not executed"]
+        bad = []
+        if o["res"] != mres:
+            bad.append("outcome %s, the model says %s" % (o["res"], mres))
+        if k[4] == "timed":
+            if o["res"] == "blocked" or o["ms"] > T_MS + SLACK:
+                bad.append("a call with a %d ms timeout was not back after %d ms" % (T_MS, T_MS + SLACK))
+            if o["res"] == "timeout" and o["ms"] < T_MS:
+                bad.append("Timeout after %d ms, before the %d ms deadline" % (o["ms"], T_MS))
+            if o["res"] == "panic":
+                bad.append("a timed call panicked")
+        if o["res"] != "blocked" and mres != "blocked" and k[2] != "dead" and o["delivered"] != (1 if mq else 0):
+            bad.append("message delivered %d times, the model says %s" % (o["delivered"], "queued" if mq else "not queued"))
+        return bad
+    viol = []
+    checked = 0
+    for k in sorted(model):
+        if next(iter(model[k]))[0] == "panic":
+            continue
+        if pid == "C16":
+            if k[5] != "erased":
+                continue
+            twin = k[:5] + ("direct",)
+            checked += 1
+            o, o2 = obs.get(k), obs.get(twin)
+            same = o and o2 and o["res"] == o2["res"] and o["delivered"] == o2["delivered"] and \
+                (abs(o["ms"] - o2["ms"]) <= SLACK)
+            if not same and not judge(twin):
+                why = "through the wrapper: %s; on the ActorRef: %s" % (json.dumps(o), json.dumps(o2))
+                viol.append((k, why))
+        else:
+            if k[5] != "direct":
+                continue
+            checked += 1
+            b = judge(k)
+            if b:
+                viol.append((k, "; ".join(b) + " (observed %s)" % json.dumps(obs.get(k))))
+    vout = []
+    for i, (k, why) in enumerate(viol[:10]):
+        rp = ctx["save_replay"](pid, "blocking_cases", i, None, [dict(case=dict(zip(("ctx", "home", "mode", "api", "form", "via"), k)),
+                                observed=obs.get(k), model=[list(x) for x in model[k]])], [why])
+        vout.append(("blocking_cases", i, pid, "%s: %s" % ("/".join(k), why[:400]), rp))
+    hist = {}
+    for k in model:
+        r = next(iter(model[k]))[0]
+        hist[r] = hist.get(r, 0) + 1
+    ctx["log"]("Blocking.tla: %d states, %d configurations (%s); %d executed on real threads, %d judged for %s, violations: %d"
+               % (ds, len(model), hist, len(obs), checked, pid, len(viol)))
+    return dict(coverage={"module": "Blocking", "states": ds, "configurations": len(model), "model_outcomes": hist,
+                          "cases_executed": len(obs), "cases_judged": checked, "timeout_ms": T_MS, "slack_ms": SLACK,
+                          "deviations_refuted_by_tlc": ["HelperRt=ambient", "KeepsTimeout=FALSE"]},
+                violations=vout, traces=checked, states=ds, transitions=g,
+                samples=[{"stage": "blocking_cases", "case": runnable[0]["cfg"], "model": runnable[0]["res"]}],
+                nontrivial_keys=["blk_" + "_".join(k) for k in model if (k[5] == "erased") == (pid == "C16")
+                                 and next(iter(model[k]))[0] != "panic"])
